@@ -13,7 +13,8 @@ use serde_json::json;
 use std::collections::BTreeMap;
 use std::io::Write;
 
-const METHODS: [&str; 9] = ["GET", "POST", "PUT", "DELETE", "HEAD", "OPTIONS", "PATCH", "TRACE", "PURGE"];
+// (method tokens are case-sensitive: an extension method in lower or mixed case goes out as written)
+const METHODS: [&str; 11] = ["GET", "POST", "PUT", "DELETE", "HEAD", "OPTIONS", "PATCH", "TRACE", "PURGE", "m-search", "Purge"];
 
 struct UrlSpec {
     url: &'static str,
@@ -234,7 +235,7 @@ fn send_a(c: &CaseA) -> Result<(Vec<u8>, Option<Vec<u8>>), String> {
             expected_body = None;
             let mut b = attohttpc::MultipartBuilder::new();
             if c.body == BodySel::MultipartTextOnly {
-                b = b.with_text("first", "one value").with_text("second", "another, a bit longer, value with \r\n in it");
+                b = b.with_text("first", "one value").with_text("second", "another, a bit longer, value with \r\n in it, a bare\nline feed and a bare\rreturn");
             }
             let form = b.build().map_err(|e| format!("multipart: {e}"))?;
             rb.body(form).send().map_err(fail)?;
@@ -243,7 +244,7 @@ fn send_a(c: &CaseA) -> Result<(Vec<u8>, Option<Vec<u8>>), String> {
             expected_body = None;
             let form = attohttpc::MultipartBuilder::new()
                 .with_text("t", "v")
-                .with_file(attohttpc::MultipartFile::new("f", b"\r\n--x\r\n").with_filename("n.bin"))
+                .with_file(attohttpc::MultipartFile::new("f", b"\r\n--x\r\n").with_filename("dir/sub\\n.bin"))
                 .with_file(attohttpc::MultipartFile::new("g", b"png-data").with_type("image/png").map_err(|e| format!("multipart: {e}"))?)
                 .with_text("u", "w")
                 .build()
@@ -383,8 +384,8 @@ fn check_a(c: &CaseA) -> Vec<(String, String)> {
     // a multipart body decodes (own RFC 7578 decoder of C15) to the parts the caller added, each with its own data
     if matches!(c.body, BodySel::Multipart | BodySel::MultipartTextOnly | BodySel::MultipartEmpty) {
         let exp: Vec<(&str, Option<&str>, &[u8])> = match c.body {
-            BodySel::Multipart => vec![("t", None, b"v"), ("u", None, b"w"), ("f", Some("n.bin"), b"\r\n--x\r\n"), ("g", None, b"png-data")],
-            BodySel::MultipartTextOnly => vec![("first", None, b"one value"), ("second", None, b"another, a bit longer, value with \r\n in it")],
+            BodySel::Multipart => vec![("t", None, b"v"), ("u", None, b"w"), ("f", Some("dir/sub\\n.bin"), b"\r\n--x\r\n"), ("g", None, b"png-data")],
+            BodySel::MultipartTextOnly => vec![("first", None, b"one value"), ("second", None, b"another, a bit longer, value with \r\n in it, a bare\nline feed and a bare\rreturn")],
             _ => vec![],
         };
         let decoded = req
